@@ -97,6 +97,10 @@ pub fn violation(property: &str, rule: &str, detail: String, shape: &[(&str, Str
     });
 }
 
+pub fn violations_so_far() -> usize {
+    HIST.with(|h| h.borrow().violations.len())
+}
+
 pub fn probe(name: &'static str) {
     probe_n(name, 1);
 }
